@@ -601,7 +601,13 @@ pub fn conc_engine(seed: u64, flavour: u64) -> ConcCase {
                     };
                     ops.push(COp::Insert { kg: kg.clone(), rel: rel.clone(), tuples });
                 }
-                (_, 7..=10) => ops.push(COp::Delete { kg: kg.clone(), rel: rel.clone(), tuples: vec![rw.pick(&shared_tuples).clone()] }),
+                (_, 7..=10) => {
+                    let mut tuples = vec![rw.pick(&shared_tuples).clone()];
+                    if rw.chance(1, 2) {
+                        tuples.push(rw.pick(&shared_tuples).clone());
+                    }
+                    ops.push(COp::Delete { kg: kg.clone(), rel: rel.clone(), tuples })
+                }
                 (0, 11..=13) => ops.push(COp::SaveAll),
                 (0, 14..=15) => ops.push(COp::CompactAll),
                 (0, _) => ops.push(COp::Read { kg: kg.clone(), rel: rel.clone() }),
@@ -679,15 +685,30 @@ pub fn c32_case(seed: u64) -> HCase {
                 let t = t64(rw.range(0, 4) as i64, rw.range(0, 3) as i64);
                 ops.push(HOp::Program { kg: kg.clone(), text: format!("-{rel}{}", tuple_lit(&t)), effect: Effect::Delete { rel, tuples: vec![t] } });
             }
-            11..=13 => {
-                let (col, cmp, k) = gen_cmp(&mut rw);
-                let var = if col == 0 { "X" } else { "Y" };
-                ops.push(HOp::Program {
-                    kg: kg.clone(),
-                    text: format!("-{rel}(X, Y) <- {rel}(X, Y), {var} {cmp} {k}"),
-                    effect: Effect::CondDelete { rel, col, cmp, k },
-                });
-            }
+            11..=13 => match rw.below(5) {
+                0 => {
+                    // repeated variable in the head
+                    ops.push(HOp::Program { kg: kg.clone(), text: format!("-{rel}(X, X) <- {rel}(X, X)"), effect: Effect::CondDeleteDiag { rel } });
+                }
+                1 => {
+                    // constant in the head
+                    let k = rw.range(0, 4) as i64;
+                    if rw.chance(1, 2) {
+                        ops.push(HOp::Program { kg: kg.clone(), text: format!("-{rel}({k}, Y) <- {rel}({k}, Y)"), effect: Effect::CondDelete { rel, col: 0, cmp: "=".into(), k } });
+                    } else {
+                        ops.push(HOp::Program { kg: kg.clone(), text: format!("-{rel}(X, {k}) <- {rel}(X, {k})"), effect: Effect::CondDelete { rel, col: 1, cmp: "=".into(), k } });
+                    }
+                }
+                _ => {
+                    let (col, cmp, k) = gen_cmp(&mut rw);
+                    let var = if col == 0 { "X" } else { "Y" };
+                    ops.push(HOp::Program {
+                        kg: kg.clone(),
+                        text: format!("-{rel}(X, Y) <- {rel}(X, Y), {var} {cmp} {k}"),
+                        effect: Effect::CondDelete { rel, col, cmp, k },
+                    });
+                }
+            },
             14..=15 => {
                 let (col, cmp, k) = gen_cmp(&mut rw);
                 let var = if col == 0 { "X" } else { "Y" };
@@ -887,10 +908,17 @@ pub fn c18_case(seed: u64, flavour: u64) -> HCase {
                 let tuples: Vec<T> = (0..k).map(|_| fact(&mut rw)).collect();
                 ops.push(HOp::Program { kg: kg.clone(), text: bulk_text(&rel, &tuples), effect: Effect::Insert { rel, tuples } });
             }
-            6..=7 => {
+            6 => {
                 let rel = rw.pick(&["f", "g"]).to_string();
                 let t = fact(&mut rw);
                 ops.push(HOp::Program { kg: kg.clone(), text: format!("-{rel}{}", tuple_lit(&t)), effect: Effect::Delete { rel, tuples: vec![t] } });
+            }
+            7 => {
+                // one engine-level delete request mixing present and absent tuples
+                let rel = rw.pick(&["f", "g"]).to_string();
+                let k = rw.range(2, 3);
+                let tuples: Vec<T> = (0..k).map(|_| fact(&mut rw)).collect();
+                ops.push(HOp::EngineDelete { kg: kg.clone(), rel, tuples });
             }
             8..=13 => {
                 let (name, text) = *rw.pick(P_RULES);
